@@ -144,8 +144,9 @@ PROPS.update({
         "certificates (slab_ok: a signed labelling with alternatives, checked edge by edge; cert_unamb: two accepting entries of one pattern sit in "
         "states with contradictory labels; accept_vdet: all transitions into an accepting state deliver the same view of its keys unless their "
         "labels contradict; empty_scope_closed) the modelled run reports each (pattern, position) at most once, for every host and fuel; with "
-        "the C01/C02 certificates the count is exactly 1 at an occurrence and 0 elsewhere. The certificates are computed (unverified) and checked "
-        "(verified) on the dump of every automaton built, under every heuristic. Matrices and the empty pattern: each (pattern, anchor) found by "
+        "the C01/C02 certificates the count is exactly 1 at an occurrence and 0 elsewhere, and the empty pattern is reported exactly once per host "
+        "(c07_string_empty_pattern_once). The certificates are computed (unverified) and checked "
+        "(verified) on the dump of every automaton built, under every heuristic. Matrices: each (pattern, anchor) found by "
         "the independent scan must be reported exactly once under every heuristic (multiset equality); the model traversal is compared as exact sequences.",
         "Coq proof of at-most-once from verified unambiguity certificates (trace of the BFS with distinct pruning keys + signed labelling) evaluated on "
         "the real automaton + multiset comparison with an independent occurrence oracle + differential correspondence", ["c07"]),
